@@ -71,6 +71,15 @@ def generate(rng, tier):
                 yield asdu_case(rng, alg, n)
         for n in range(-1, 241, 7):
             yield e2e_case(rng, ALG_ENC, n, kind="out")
+    # histories: genuine frames of one sender interleaved with damaged copies (bad MAC / changed sequence number /
+    # changed payload) - every genuine frame must still be delivered exactly (oracle only; the counter table model is C17's)
+    for _ in range(60 * reps):
+        m = rng.randrange(2, 6)
+        yield {"kind": "hist", "key": rng.randbytes(16).hex(), "seq": pick(rng, [1, 255, 2**47], 2**40, 1),
+               "src": pick(rng, ADDRS, 65536, 1), "dst": pick(rng, ADDRS, 65536, 1),
+               "steps": [{"data": hx(rng.randbytes(rng.choice([1, 2, 4, 14, 16, 100]))),
+                          "damage": rng.choice([None, None, "mac", "seq-up", "seq-top", "payload"]),
+                          "bit": rng.randrange(8)} for _ in range(m)]}
     for _ in range(40 * reps):  # inputs the sender must refuse
         yield asdu_case(rng, rng.choice([ALG_AUTH, ALG_ENC]), rng.randrange(20), bad=rng.choice(["seq", "len"]))
 
@@ -130,6 +139,34 @@ def run_impl(c):
         line = (f"dsec out {c['dst']}:{c['key']} {c['seq']} {ctrl} {c['src']} {c['dst']} "
                 f"{mk_tpci(c['tpci']).to_knx()} P {hx(payload_of(c).to_knx())}")
         return {"out": out, "line": line, "expect": out}
+    if c["kind"] == "hist":
+        key = bytes.fromhex(c["key"])
+        snd, _ = mk_xknx(c["src"], {c["dst"]: key}, {}, c["seq"])
+        rcv, issues = mk_xknx(0x1234, {c["dst"]: key}, {c["src"]: c["seq"] - 1}, 1)
+        res = []
+        for st in c["steps"]:
+            pay = apci.GroupValueWrite(DPTArray(tuple(unhx(st["data"]))))
+            cemi, exc = send(snd, Telegram(destination_address=GroupAddress(c["dst"]), payload=pay))
+            if exc:
+                res.append(f"S!{exc}")
+                continue
+            raw = bytearray(CEMIFrame(code=CEMIMessageCode.L_DATA_IND, data=cemi.data).to_knx())
+            if st["damage"]:
+                bad = bytearray(raw)
+                if st["damage"] == "mac":
+                    bad[-1 - st["bit"] % 4] ^= 1 << st["bit"]
+                elif st["damage"] == "seq-up":
+                    bad[17] = (bad[17] + 1 + st["bit"]) & 0xFF      # low octet of the 48-bit sequence number
+                elif st["damage"] == "seq-top":
+                    bad[12] |= 0x40                                   # a much higher sequence number
+                else:
+                    bad[18] ^= 1 << st["bit"]                         # first octet of the secured APDU
+                obs = receive_raw(rcv, issues, bytes(bad))
+                res.append("X" + str(int(bool(obs["seen"]) or bool(obs["queued"]))) + (f"!{obs['raised']}" if obs["raised"] else ""))
+            obs = receive_raw(rcv, issues, bytes(raw))
+            ok = len(obs["seen"]) == 1 and obs["seen"][0].payload == pay and obs["seen"][0].data_secure is True
+            res.append("D" + str(int(ok)) + (f"!{obs['raised']}" if obs["raised"] else ""))
+        return {"out": " ".join(res), "line": None}
     raw, s = sender_frame(c)
     if raw is None:
         return f"send-failed {s}"
@@ -158,6 +195,15 @@ def oracle(c, out):
         if not out.startswith("secured "):
             return f"outgoing frame to a keyed group address was not secured: {out[:60]}"
         return None
+    if c["kind"] == "hist":
+        for i, tok in enumerate(out.split()):
+            if tok.startswith("D") and tok != "D1":
+                return f"history step {i}: a genuine frame of a known sender with a fresh sequence number was not delivered exactly ({out})"
+            if tok.startswith("X") and tok != "X0":
+                return f"history step {i}: a damaged frame was delivered or made the receive path raise ({out})"
+            if tok.startswith("S"):
+                return f"history step {i}: sender failed ({out})"
+        return None
     if out.startswith("send-failed"):
         return f"sender could not send: {out}"
     apdu = hx(payload_of(c).to_knx())
@@ -178,6 +224,8 @@ def outcome_class(out):
 
 
 def finding_key(c, msg):
+    if c["kind"] == "hist":
+        return "hist:" + ",".join(str(st["damage"]) for st in c["steps"])
     return f"{c['kind']}:{c['tpci'][0]}:{c.get('alg', c.get('scf'))}"
 
 
